@@ -24,13 +24,14 @@ def gen(tier, seed):
         if viol:
             c["viol"] = viol
         conds.append(c)
-    q = tier == "quick"
+    q = False   # index maps are enumerated exhaustively in plain CPython: full boxes in both tiers
     spaces = [((2, 1, 1), None, [(-1, 1), (-1, 1)]), ((3, 1, 1), None, [(-1, 1), (-1, 1), (-1, 1)] if q else [(-1, 2)] * 3),
               ((2, 2, 1), None, [(-1, 1), (0, 1), (-1, 0), (0, 1)] if q else [(-1, 2)] * 4),
               ((3, 1, 1), (0, 1, 0), [(-1, 1), (-1, 1), (-1, 1)] if q else [(-1, 2)] * 3),
               ((2, 2, 1), (0, 1, 0, 1), [(-1, 0), (-1, 1), (-1, 1), (-1, 0)] if q else [(-1, 1)] * 4)]
-    if not q:
-        spaces += [((2, 2, 2), None, [(-1, 1)] * 8), ((1, 1, 3), None, [(-1, 2)] * 3)]
+    spaces += [((1, 1, 3), None, [(-1, 2)] * 3)]
+    if tier != "quick":
+        spaces += [((2, 2, 2), None, [(-1, 1)] * 8)]
     for k, (shape, envs, ranges) in enumerate(spaces):
         n = len(ranges)
         args = ", ".join("m%d: int" % i for i in range(n))
@@ -91,4 +92,4 @@ def run(rec):
                  ([("order3_repeat", ("grid", 2, 2, 2, 0)), ("chstt_B", ("grid", 1, 3, 1, 0))] if rec.tier != "quick" else []))
     text, conds = gen(rec.tier, rec.seed)
     mod = pysym.write_module("hgen_C16", text)
-    pysym.run_conditions(rec, mod, conds, default_timeout=600)
+    pysym.run_auto(rec, mod, conds, default_timeout=600)
